@@ -226,6 +226,10 @@ func run(r *lib.Run) {
 		hsWg.Add(1)
 		go func(i int) { defer hsWg.Done(); runMovedWorld(r, i) }(i)
 	}
+	for i := 0; i < r.Pick(4, 24); i++ {
+		hsWg.Add(1)
+		go func(i int) { defer hsWg.Done(); runMovedDuringCheckWorld(r, i) }(i)
+	}
 	for i := 0; i < r.Pick(6, 36); i++ {
 		hsWg.Add(1)
 		go func(i int) { defer hsWg.Done(); runSeedWorld(r, i) }(i)
